@@ -316,7 +316,8 @@ class ThreadBook:
         self.threads = {}
         self.started = {}
 
-    def start(self, test, key, api, tname):
+    def start(self, test, key, api, tname, hook=False):
+        # hook: started by a per-test layer hook after ``test`` was over
         import queue
         q = self.events[key] = queue.Queue()
         started = self.started[key] = threading.Event()
@@ -366,7 +367,8 @@ class ThreadBook:
         else:
             name = 'Dummy-%s' % self.idents[key]
         self.log.emit('ThreadStart', t=test, thread=key,
-                      ident=self.idents.get(key, 0), api=api, name=name)
+                      ident=self.idents.get(key, 0), api=api, name=name,
+                      hook=bool(hook))
 
     def _tell(self, key, kind, arg=None):
         """hand a command to the (blocked) thread and wait until it is done"""
@@ -482,6 +484,8 @@ class World:
                                out=stream_state('stdout'),
                                err=stream_state('stderr'), s=behaviour)
                 world._layer_writes(lspec, hook)
+                if hook == 'testSetUp' and lspec.get('hook_threads'):
+                    world._hook_threads(lspec)
                 world._behave(behaviour, hook)
                 return
             world.log.emit('L' + hook + 'Begin', l=actual_name,
@@ -498,6 +502,19 @@ class World:
                 raise
             world.log.emit('L' + hook + 'End', l=actual_name, s='ok')
         return run
+
+    def _hook_threads(self, lspec):
+        """C19: the layer's testSetUp starts scripted threads - each at the
+        first call after the test named by 'after' was the last one to run
+        ('': before the first test); startTest calls the hook before it
+        looks which threads exist"""
+        if self.spec.get('ref_mode'):
+            return
+        last = getattr(self, '_last_tid', '')
+        for a in lspec['hook_threads']:
+            if a.get('after', '') == last and a['name'] not in self.threads.events:
+                self.threads.start(last, a['name'], a.get('api', 'threading'),
+                                   a.get('tname'), hook=True)
 
     def _layer_writes(self, lspec, hook):
         for w in lspec.get('writes', {}).get(hook, ()):
@@ -667,6 +684,7 @@ class World:
     def _phase(self, test, phase):
         tid = test._verif_id
         tspec = self.spec['tests'][tid]
+        self._last_tid = tid     # (C19: what a later layer hook started came after it)
         if phase == 'setUp':
             self.iter_count[tid] = self.iter_count.get(tid, 0) + 1
             self.own_stream.clear()
@@ -779,6 +797,17 @@ class World:
                     node = CycleNode(self.log, tid, a.get('repr', 'ok'))
                     setattr(test, '_verif_cycle_%d' % id(node), node)
                     self.log.emit('Cycle', t=tid, how=a.get('repr', 'ok'))
+            elif kind == 'rmtree':
+                # C18: a directory the run was given (--profile-directory)
+                # disappears while the tests run
+                if not self.spec.get('ref_mode'):
+                    import shutil
+                    shutil.rmtree(a['path'], ignore_errors=True)
+                    self.log.emit('Rmtree', t=tid, path=a['path'])
+            elif kind == 'nested':
+                # C18: the test performs an in-process run itself
+                if not self.spec.get('ref_mode'):
+                    _nested_run(self.log, tid, a)
             elif kind == 'redirect':
                 # the test replaces a std stream with an object of its own
                 x = a.get('stream', 'stdout')
@@ -877,6 +906,54 @@ class _FalsyInstanceLayer(_InstanceLayer):
 
     def __len__(self):
         return 0
+
+
+_NESTED_SRC = '''\
+import unittest
+
+
+class Inner(unittest.TestCase):
+
+    def test_a(self):
+        print('inner test_a')
+
+    def test_b(self):
+        print('inner test_b')
+        if %(fail)r:
+            self.fail('scripted inner failure')
+'''
+
+
+def _nested_run(log, tid, a):
+    """C18: a test of the outer run calls zope.testrunner.run_internal on a
+    tiny project of its own (a scratch directory, a tests pattern that only
+    matches its one module).  a: {args: [...], warnings: str|None, fail: bool};
+    events NestBegin / NestEnd carry the globals the inner run found / left."""
+    import shutil
+    import tempfile
+    import zope.testrunner
+    d = tempfile.mkdtemp(prefix='verif-nested-')
+    name = 'vnestinner%d' % (abs(hash(d)) % 100000)
+    try:
+        with open(os.path.join(d, name + '.py'), 'w') as f:
+            f.write(_NESTED_SRC % {'fail': bool(a.get('fail'))})
+        args = ['zt', '--path', d, '--tests-pattern', '^%s$' % name] + \
+            [x.replace('@NESTDIR@', d) for x in a.get('args', ())]
+        log.emit('NestBegin', t=tid, g=snapshot_globals())
+        how = ''
+        try:
+            failed = zope.testrunner.run_internal(
+                [], args, cwd=d, warnings=a.get('warnings'))
+        except BaseException as e:
+            how = type(e).__name__
+            log.emit('NestEnd', t=tid, raised=how, failed=True,
+                     g=snapshot_globals())
+            raise
+        log.emit('NestEnd', t=tid, raised='', failed=bool(failed),
+                 g=snapshot_globals())
+    finally:
+        sys.modules.pop(name, None)
+        shutil.rmtree(d, ignore_errors=True)
 
 
 def load_world_from_env():
